@@ -122,6 +122,7 @@ struct SimResolver : public xercesc::EntityResolver {
         ++calls;
         std::string sid = narrow(systemId);
         std::string name = sid; size_t p = sid.find("/sim/"); if (p != std::string::npos) name = sid.substr(p + 5);
+        else if (sid.compare(0, 5, "file:") == 0 || (!sid.empty() && sid[0] == '/')) return nullptr;   // a real file (path forms): let the parser open it
         fs.opens[name]++;
         if (fs.throwing.count(name)) throw xercesc::IOException(__FILE__, __LINE__, xercesc::XMLExcepts::File_CouldNotOpenFile, xercesc::XMLPlatformUtils::fgMemoryManager);
         auto it = fs.files.find(name);
